@@ -69,6 +69,9 @@ type c17RouteCase struct {
 func c17RouteCases(req *Request) []*c17RouteCase {
 	var out []*c17RouteCase
 	for si, svc := range req.Files[0].Services {
+		if c17IsShared(svc) {
+			continue // routes over shared request messages: family "shared-message" (c17_shared.go)
+		}
 		for mi, md := range svc.Methods {
 			add := func(variant string, lines []hdrLine) {
 				out = append(out, &c17RouteCase{si: si, mi: mi, svc: svc, md: md, variant: variant, lines: lines})
@@ -256,6 +259,9 @@ func c17RouteSequences(run *Run, s *Session, req *Request, rng *rand.Rand) []*Ca
 	}
 	var seqs []*rseq
 	for si, svc := range req.Files[0].Services {
+		if c17IsShared(svc) {
+			continue
+		}
 		q := &rseq{si: si, svc: svc}
 		pool := bySvc[si]
 		// every route once with its own headers first (random order), then anything
@@ -388,6 +394,8 @@ func c17RouteSequences(run *Run, s *Session, req *Request, rng *rand.Rand) []*Ca
 	for i, cr := range results {
 		cr.Apply(vs[i])
 	}
+	// routes over SHARED request messages, every call order in a process of its own (c17_shared.go)
+	results = append(results, c17SharedMessage(run, s, req, rng)...)
 	return results
 }
 
